@@ -449,3 +449,55 @@ def unflushed_return(fn, handle=None):
     if isinstance(lw, (ast.For, ast.While)) and lw.body and isinstance(lw.body[-1], ast.Expr) and isinstance(lw.body[-1].value, ast.Call) and dotted(lw.body[-1].value.func) == h + '.flush':
         return None
     return rets[-1]
+
+
+def converter_pass_through(ctx, rule, users):
+    """R-PASSMASK: the string-form operations copy the variables they do not touch with Pseudo2NetCDF.addVariable; its data step
+    (addVariableData) must not fill the masked cells of the source when the target is an in-memory masked variable - there the fill
+    values stay as ordinary data and the mask is gone (on disk the fill value is what the reader turns back into a mask).
+    Path-wise: on every path taken for a masked source, a store of `<source>.filled(..)` into the target is preceded by a decision
+    that the target is not a masked array.  `users`: [(relpath, function)] whose pass-through goes this way (counted)."""
+    from . import paths as _paths
+    from .engine import norm, dotted, iter_stmts
+    from .report import Finding
+    import ast as _ast
+    src = ctx.src
+    m = src.mod('pncgen.py')
+    fn = m.func('Pseudo2NetCDF.addVariableData')
+    where = 'src/PseudoNetCDF/pncgen.py Pseudo2NetCDF.addVariableData'
+    nsites = 0
+    for rp, q in users:
+        f = src.mod(rp).func(q)
+        nsites += sum(1 for c in _ast.walk(f) if isinstance(c, _ast.Call) and isinstance(c.func, _ast.Attribute) and c.func.attr == 'addVariable')
+    ctx.count('%s: pass-through copies that go through Pseudo2NetCDF.addVariable' % rule, nsites)
+    nmasked, bad = 0, None
+    for pth in _paths.function_paths(fn):
+        if pth.exit[0] == 'raise':
+            continue
+        res = _paths.expand(pth, keep=('nvar', 'pvar'))
+        if not res.feasible:
+            continue
+        ismasked = [p_ for e_, x, p_ in res.conds if isinstance(x, _ast.Call) and dotted(x.func) == 'isinstance' and 'MaskedArray' in norm(x) and 'pvar' in norm(x.args[0])]
+        if not ismasked or ismasked[-1] is not True:
+            continue
+        for k_, (st, new) in enumerate(res.stmts):
+            if not (isinstance(new, _ast.Assign) and isinstance(new.targets[0], _ast.Subscript) and norm(new.targets[0].value) == 'nvar'):
+                continue
+            nmasked += 1
+            fills = [c for c in _ast.walk(new.value) if isinstance(c, _ast.Call) and ((isinstance(c.func, _ast.Attribute) and c.func.attr == 'filled') or dotted(c.func) in ('np.ma.filled', 'filled'))]
+            if not fills:
+                continue
+            before = res.conds[:res.ncond_at[k_]]
+            target_not_masked = any(p_ is False and isinstance(x, _ast.Call) and dotted(x.func) == 'isinstance' and norm(x.args[0]) == 'nvar' and 'MaskedArray' in norm(x) for e_, x, p_ in before) or \
+                any(p_ is True and isinstance(x, _ast.Call) and dotted(x.func) == 'isinstance' and norm(x.args[0]) in ('nvar', 'nfile') and 'NetCDF' in norm(x) and 'Pseudo' not in norm(x) for e_, x, p_ in before)
+            if not target_not_masked:
+                bad = bad or st
+    if nmasked == 0:
+        ctx.undec(rule, 'pass-through copy', where, 'no store into the target on a path taken for a masked source')
+    elif bad is None:
+        ctx.ok(rule, 'pass-through copy', where, 'masked source: filled() only after the target was found not to be a masked array (%d call sites rely on it)' % nsites)
+    else:
+        ctx.violation(Finding(rule, 'pncgen.py', 'Pseudo2NetCDF.addVariableData', bad, 'a masked source is written as `.filled(..)` whatever the target is: when the target is an in-memory masked variable (the '
+                              'string-form operations copy every variable they do not touch this way) the fill values become ordinary data and the mask is lost - a variable that '
+                              'lacks the dimension does not come back unchanged'))
+    return nsites
